@@ -166,6 +166,7 @@ def norm_pm(pm):
 # implementation side
 # ------------------------------------------------------------------------------------------
 def impl_table(case, params):
+    impl.prime_twin_relisted({"graph": case["graph"], "params": params, "max_time": case["max_time"]})
     m = impl.build_uni({"graph": case["graph"], "params": params, "max_time": case["max_time"]})
     evo = m.state_dist_evo()
     names = list(m.graph.lnls.keys())
